@@ -18,7 +18,7 @@ CHECKS["C03"] = ("property-based testing (proptest) + coverage-guided libFuzzer 
 CHECKS["C12"] = ("metamorphic property-based testing (proptest): plain run vs the 7 option subsets, a repeat, and the same call on a fresh thread; bit-identity of samples, statistics and a hash of every right-hand-side argument",
          "Each generated case is solved under all subsets of {t_eval, dense_output, non-terminal events}; the instrumented IVP hashes the bits of every (t,y) passed to the right-hand side, so 'the stepper did not notice the observer' is decided exactly.",
          "Bit-identity; dense span end compared to 1e-12 + 4 ulp.", "DESIGN.md §4 C12")
-CHECKS["C18"] = ("property-based testing with fault injection (proptest) against call counters of an instrumented IVP (solve_ivp and the low-level Radau/BDF builders)",
+CHECKS["C18"] = ("property-based testing with fault injection (proptest) against call counters of an instrumented IVP (solve_ivp and the low-level Radau/BDF builders; first steps that make the iteration matrix exactly singular)",
          "Generated problems/methods/tolerances/Jacobian sources; nfev, njev, naccpt, nstep compared with the calls actually observed (finite-difference evaluations separated by a flag set while the crate's default IVP::jac runs).",
          "One events() call per accepted step is used to count accepted steps (public hook).", "DESIGN.md §4 C18")
 CHECKS["C11"] = ("property-based testing (proptest): step sequence and first trial step observed through an instrumented IVP; budgeted run vs unbudgeted twin (bit-identical prefix)",
@@ -26,7 +26,7 @@ CHECKS["C11"] = ("property-based testing (proptest): step sequence and first tri
          "Slack 1e-12 relative/absolute on step lengths; off-by-one tolerance in where solvers test the budget.", "DESIGN.md §4 C11")
 CHECKS["C19"] = ("stateful property-based testing (proptest): scripted callback histories (Interrupt / no-op / doubling / XOut answers at generated indices) against the undisturbed history of the same low-level solver",
          "Histories over all six low-level solvers with a recording SolOut: first-call/contiguity/interpolant-endpoint invariants on every callback, Interrupt stops without further evaluations (counted by the instrumented IVP), untouched ModifiedSolution is a bit-exact no-op, doubling a linear homogeneous state doubles everything after it bit-exactly for explicit methods.",
-         "BDF (history restart) and implicit doubling only to tolerance; contiguity to 8 ulp.", "DESIGN.md §4 C19")
+         "BDF (history restart) and implicit doubling only to tolerance, except doubling at the initial call with the analytic Jacobian (exactly twice the no-op ModifiedSolution run); contiguity to 8 ulp.", "DESIGN.md §4 C19")
 CHECKS["C06"] = ("property-based testing (proptest): dense output vs the accepted-step grid and states observed through the events hook; generated interior / outside query points",
          "Generated problems (incl. mildly stiff ones for BDF order changes and Radau rejections), options and query points; the true step grid and states come from one events() call per accepted step, so span coverage, end-point reproduction, continuity across boundaries and error kinds are decided per step of every run.",
          "Tolerances 1e-10(1+|y|) + 8 max|f| ulp(t); 'clearly outside' = 1e-9 + 256 ulp(t); low-level runs whose callback answers XOut (dense output on demand) for the per-step interpolant.", "DESIGN.md §4 C06")
@@ -38,8 +38,8 @@ CHECKS["C09"] = ("two-phase property-based testing (proptest) + libFuzzer campai
          "Exact zeros at step ends are skipped (SciPy semantics, as the property allows).", "DESIGN.md §4 C09")
 CHECKS["C05"] = ("two-phase metamorphic property-based testing (proptest) + coverage-guided libFuzzer campaign with the same oracle (thorough tier): requested times placed on / beside / between the plain run's step ends; bitwise comparison with t_eval and with the dense twin's Solution::sol",
          "Requested times are generated relative to the solver's own step grid (on a step end, 1e-13..1e-9 beside it, mid-step, duplicates, x0, xend), with terminal / non-terminal events and step budgets; exact oracles (bit equality of times and of interpolated values) plus the C01 accuracy bound and the early-stop completeness rule.",
-         "Handler resolution 1e-12 as documented; accuracy constant as in C01.", "DESIGN.md §4 C05")
-CHECKS["C10"] = ("two-phase differential property-based testing (proptest): the same run with and without the terminal flags (twin), bit-identical prefix",
+         "Handler resolution 1e-12 as documented (beyond a terminal stop only for a requested time that close behind an earlier accepted step end); accuracy constant as in C01.", "DESIGN.md §4 C05")
+CHECKS["C10"] = ("two-phase differential property-based testing (proptest): the same run with and without the terminal flags (twin), bit-identical prefix; twin vs the same run without t_eval (same event times)",
          "Event roots placed relative to the step grid (several functions in one step, either order), occurrence counts 1..3, with/without t_eval and dense output; the twin run without terminal flags defines where the run must stop and what must have been reported before.",
          "Ties of two terminal functions at the same instant skipped.", "DESIGN.md §4 C10")
 CHECKS["C04"] = ("property-based testing with fault injection (proptest) + coverage-guided libFuzzer campaign with the same oracle (thorough tier): pathological right-hand sides and injected NaN/inf under a deterministic evaluation budget",
@@ -54,7 +54,7 @@ CHECKS["C01"] = ("property-based testing (proptest) against closed-form exact so
 CHECKS["C02"] = ("property-based testing (proptest) + exhaustive rooted-tree enumeration: Butcher weights extracted from the compiled steppers with a unit-vector right-hand side; local-error slopes; Pade approximant; Radau one-step vs the harness's own collocation solution (nonlinear problems); XOut / no-callback twin runs; polynomial quadrature; step-count scaling",
          "The stage weights the explicit steppers actually apply (one step, a clipped step, two consecutive steps, dense output on/off, generated x0 and h = +-2^k) are extracted exactly and checked against every rooted-tree order condition up to p (200 trees for DOP853); Radau is checked against the (2,3) Pade approximant over generated complex z; the embedded estimators through exact polynomial quadrature and tolerance scaling.",
          "Assumes the documented stage evaluation order; slope thresholds calibrated on the repaired tree.", "DESIGN.md §4 C02")
-CHECKS["C07"] = ("property-based testing (proptest) against exact solutions: convergence slope of the step interpolant's max-over-theta error; interior samples of full runs vs neighbouring step ends; XOut twin runs (bit-identical interpolants)",
+CHECKS["C07"] = ("property-based testing (proptest) against exact solutions: convergence slope of the step interpolant's max-over-theta error; interior samples of full runs vs neighbouring step ends; XOut twin runs (bit-identical interpolants); low-level DOPRI5/DOP853 runs with the stiffness test on every 1st..5th step",
          "Single steps from exact data with the interpolant probed on a theta grid under five refinements give the interpolation order; full runs of all six methods on general closed-form problems compare Solution::sol at generated interior positions of every step with the exact solution relative to the step-end errors.",
          "Slope thresholds calibrated on the repaired tree; steps with h*rate > 1 skipped in the full-run clause.", "DESIGN.md §4 C07")
 CHECKS["C14"] = ("property-based testing (proptest) against closed-form stiff problems; differential runs at kappa and kappa=1e2 and from a shifted start time; Radau-vs-BDF agreement; linear invariants",
